@@ -5,6 +5,8 @@ from __future__ import annotations
 import ast
 
 from gv import rules
+from gv.astutil import arg_or_kw
+from gv.astutil import as_update
 from gv.astutil import compare_parts
 from gv.astutil import const_value
 from gv.astutil import dotted
@@ -17,6 +19,7 @@ from gv.astutil import stmts_of
 from gv.astutil import unparse
 from gv.astutil import walk_body
 from gv.cfg import cfg_of
+from gv.dataflow import SymValues
 from gv.props import describe
 from gv.props.shared import branch_conditions
 from gv.props.shared import h5py_files_in_with
@@ -61,6 +64,123 @@ def _str_consts_of_calls(func: ast.AST, names: tuple[str, ...]) -> dict[str, str
     return out
 
 
+# ---------------------------------------------------------------------------
+# spelling-independent readings of expressions
+
+_SYM: dict = {}
+
+
+def _sym(func: ast.AST) -> SymValues:
+    if id(func) not in _SYM:
+        _SYM[id(func)] = (func, SymValues(func, max_len=700))  # func kept alive so that id() stays unique
+    return _SYM[id(func)][1]
+
+
+def _texts(func: ast.AST, expr: ast.AST | None) -> list[str]:
+    """The alternatives of ``expr`` (a node of ``func``) with the locals it reads replaced by their definitions."""
+    if expr is None:
+        return []
+    sv = _sym(func)
+    if not sv.cfg.has(expr):
+        return [ast.unparse(expr)]
+    return sv.texts(expr)
+
+
+def _exprs(func: ast.AST, expr: ast.AST | None) -> list[ast.AST]:
+    return [ast.parse(t, mode="eval").body for t in _texts(func, expr)]
+
+
+def _texts_at(func: ast.AST, at: ast.AST, spec: str) -> list[str]:
+    """The alternatives of the expression written ``spec`` if it were evaluated where ``at`` is."""
+    sv = _sym(func)
+    e = ast.parse(spec, mode="eval").body
+    if not sv.cfg.has(at):
+        return [ast.unparse(e)]
+    return sorted(sv._ev(e, sv.fw.at(at)))
+
+
+def _same_object(func: ast.AST, a: ast.AST, b: ast.AST) -> bool:
+    """``a`` and ``b`` denote the same object: same text, or same text once the locals are unfolded."""
+    return norm_stmt(a) == norm_stmt(b) or bool(set(_texts(func, a)) & set(_texts(func, b)))
+
+
+def _is_zero(e: ast.AST | None) -> bool:
+    return e is None or (isinstance(e, ast.Constant) and e.value == 0 and not isinstance(e.value, bool))
+
+
+def _index_mapping(e: ast.AST) -> tuple[ast.AST, ast.AST | None, ast.AST | None] | None:
+    """(sequence, start, stop) when ``e`` maps the items of a sequence to their positions counted from ``start``:
+
+    ``dict(zip(S, range(n)))``, ``dict(zip(S, [list(]range(a, b)[)]))``, ``dict(zip(S, count(a)))``,
+    ``{x: i for i, x in enumerate(S[, a])}``.  ``start`` None means 0, ``stop`` None means unbounded.
+    """
+
+    def positions(r: ast.AST):
+        if isinstance(r, ast.Call) and dotted(r.func) in ("list", "tuple") and len(r.args) == 1 and not r.keywords:
+            r = r.args[0]
+        if isinstance(r, ast.Call) and dotted(r.func) == "range" and not r.keywords:
+            if len(r.args) == 1:
+                return None, r.args[0]
+            if len(r.args) == 2:
+                return r.args[0], r.args[1]
+        if isinstance(r, ast.Call) and dotted(r.func) in ("count", "itertools.count") and len(r.args) <= 1 and not r.keywords:
+            return (r.args[0] if r.args else None), None
+        return False
+
+    if isinstance(e, ast.Call) and dotted(e.func) == "dict" and len(e.args) == 1 and not e.keywords:
+        z = e.args[0]
+        if isinstance(z, ast.Call) and dotted(z.func) == "zip" and len(z.args) == 2 and not z.keywords:
+            r = positions(z.args[1])
+            if r is not False:
+                return z.args[0], r[0], r[1]
+        return None
+    if isinstance(e, ast.DictComp) and len(e.generators) == 1 and not e.generators[0].ifs:
+        g = e.generators[0]
+        en, t = g.iter, g.target
+        if isinstance(en, ast.Call) and dotted(en.func) == "enumerate" and en.args and isinstance(t, ast.Tuple) and len(t.elts) == 2 and all(isinstance(x, ast.Name) for x in t.elts):
+            if dotted(e.key) == t.elts[1].id and dotted(e.value) == t.elts[0].id and t.elts[0].id != t.elts[1].id:
+                return en.args[0], arg_or_kw(en, 1, "start"), None
+    return None
+
+
+def _plain_sorted(e: ast.AST) -> ast.AST | None:
+    """The collection ``c`` when ``e`` is ``sorted(c)`` / ``sorted(c.keys())`` in the default order."""
+    if isinstance(e, ast.Call) and dotted(e.func) == "sorted" and len(e.args) == 1 and not e.keywords:
+        c = e.args[0]
+        if isinstance(c, ast.Call) and isinstance(c.func, ast.Attribute) and c.func.attr == "keys" and not c.args and not c.keywords:
+            c = c.func.value
+        return c
+    return None
+
+
+_LENGTH_PRESERVING = ("array", "asarray", "list", "tuple", "__to_real", "_HDFDatabase__to_real")
+
+
+def _length_of(e: ast.AST) -> ast.AST | None:
+    """``x`` when ``e`` is the number of items of ``x``: ``len(x)`` or ``x.shape[0]``."""
+    if isinstance(e, ast.Call) and dotted(e.func) == "len" and len(e.args) == 1 and not e.keywords:
+        return e.args[0]
+    if isinstance(e, ast.Subscript) and isinstance(e.value, ast.Attribute) and e.value.attr == "shape" and const_value(e.slice) == 0 and isinstance(e.slice, ast.Constant):
+        return e.value.value
+    return None
+
+
+def _feeding_stmts(func: ast.AST, cfg, expr: ast.AST, at: ast.stmt) -> list[tuple[ast.stmt, ast.AST]]:
+    """(statement, expression evaluated there) for ``expr`` at statement ``at`` and for the assignments to locals
+    that may flow into it."""
+    out, seen, work = [(at, expr)], set(), sorted(names_in(expr))
+    while work:
+        n = work.pop()
+        if n in seen:
+            continue
+        seen.add(n)
+        for s in stmts_of(func):
+            if s is not at and isinstance(s, ast.Assign) and any(dotted(t) == n for t in s.targets) and cfg.reachable(cfg.node_of(s), cfg.node_of(at)):
+                out.append((s, s.value))
+                work += sorted(names_in(s.value))
+    return out
+
+
 def check_database_tables(ctx: Ctx) -> None:
     w = ctx.index.method(HD, "HDFDatabase", "to_file")
     r = ctx.index.method(HD, "HDFDatabase", "update_from_file")
@@ -99,23 +219,41 @@ def check_database_tables(ctx: Ctx) -> None:
         ok3 = any(isinstance(c.key, ast.Subscript) and dotted(c.key.value) == "keys" and "int(" in unparse(c.key.slice) for c in comp)
         ctx.ob("11.1-db-vectors", cname(HD, "HDFDatabase", "update_from_file"), ok3, "a vector output stored as arr_<i>/<j> belongs to the j-th name of entry i", node=(comp or idx)[0])
         zips = [c for c in ast.walk(idx[0]) if isinstance(c, ast.Call) and dotted(c.func) == "zip"]
-        ok4 = len(zips) == 1 and isinstance(zips[0].args[0], ast.GeneratorExp) and dotted(zips[0].args[0].generators[0].iter) == "keys" and len(zips[0].args[0].generators[0].ifs) == 1
+        ok4 = len(zips) == 1 and len(zips[0].args) == 2
+        if ok4:
+            # the filtered name list: a generator or a list, written in place or through a local
+            first = zips[0].args[0]
+            alts = [first] if isinstance(first, (ast.GeneratorExp, ast.ListComp)) else _exprs(r, first)
+            name_list = {"keys", *_texts_at(r, zips[0], "keys")}
+            ok4 = bool(alts) and all(isinstance(a, (ast.GeneratorExp, ast.ListComp)) and len(a.generators) == 1 and unparse(a.generators[0].iter) in name_list and len(a.generators[0].ifs) == 1 and dotted(a.elt) == dotted(a.generators[0].target) for a in alts)
         ctx.ob("11.1-db-scalars", cname(HD, "HDFDatabase", "update_from_file"), ok4, "scalar outputs are the names that are not vectors, in the order of the name list, zipped with the scalar dataset", node=(zips or idx)[0])
     # writer side of the same convention
     aw = ctx.index.method(HD, "HDFDatabase", "__add_hdf_output_dataset")
     con = cname(HD, "HDFDatabase", "__add_hdf_output_dataset")
-    srt = [s for s in stmts_of(aw) if isinstance(s, ast.Assign) and isinstance(s.value, ast.Call) and dotted(s.value.func) == "sorted"]
+    params = [a.arg for a in aw.args.args]
+    ctx.need(len(params) == 6, "__add_hdf_output_dataset: (self, index, keys group, values group, outputs, name->index) expected")
+    outs_p, map_p = params[4], params[5]
     names_call = rules.self_calls(aw, "__add_hdf_name_output", "HDFDatabase")
     loops = [s for s in stmts_of(aw) if isinstance(s, ast.For)]
-    ok = len(srt) == 1 and len(names_call) == 1 and dotted(names_call[0].args[2]) == dotted(srt[0].targets[0]) and len(loops) == 1 and dotted(loops[0].iter) == dotted(srt[0].targets[0])
-    ctx.ob("11.1-db-scalars", con, ok, "names are written, and scalar values collected, in the same (sorted) order", node=(names_call or [aw])[0])
+    # the names written and the names iterated are the same sorted list (through a local or not)
+    written = _texts(aw, arg_or_kw(names_call[0], 2, "keys")) if len(names_call) == 1 else []
+    iterated = _texts(aw, loops[0].iter) if len(loops) == 1 else []
+    srt_ok = len(written) == 1 and written == iterated and dotted(_plain_sorted(ast.parse(written[0], mode="eval").body)) == outs_p
+    ctx.ob("11.1-db-scalars", con, srt_ok, "names are written, and scalar values collected, in the same (sorted) order", node=(names_call or [aw])[0])
     vec = rules.self_calls(aw, "__add_hdf_vector_output", "HDFDatabase")
-    ok = len(vec) == 1 and dotted(vec[0].args[1]) == "idx_value"
-    idxdef = [s for s in stmts_of(aw) if isinstance(s, ast.Assign) and dotted(s.targets[0]) == "idx_value"]
-    ok = ok and len(idxdef) == 1 and norm_stmt(idxdef[0].value) == "output_name_to_idx[name]"
+    ok = len(vec) == 1 and len(loops) == 1 and isinstance(loops[0].target, ast.Name)
+    if ok:
+        got = arg_or_kw(vec[0], 1, "idx_sub_group")
+        ok = got is not None and _texts(aw, got) == _texts_at(aw, got, f"{map_p}[{loops[0].target.id}]") and any(sub is vec[0] for sub in ast.walk(loops[0]))
     ctx.ob("11.1-db-vectors", con, ok, "a vector output must be stored under the index of its own name", node=(vec or [aw])[0])
-    dflt = [s for s in stmts_of(aw) if isinstance(s, ast.Assign) and dotted(s.targets[0]) == "output_name_to_idx"]
-    ok = len(dflt) == 1 and "zip" in unparse(dflt[0].value) and dotted(srt[0].targets[0]) in names_in(dflt[0].value) and "range" in unparse(dflt[0].value)
+    dflt = [s for s in stmts_of(aw) if isinstance(s, ast.Assign) and dotted(s.targets[0]) == map_p]
+    ok = len(dflt) == 1 and srt_ok
+    if ok:
+        alts = [_index_mapping(e) for e in _exprs(aw, dflt[0].value)]
+        ok = len(alts) == 1 and alts[0] is not None
+        if ok:
+            seq, start, stop = alts[0]
+            ok = unparse(seq) == written[0] and _is_zero(start) and (stop is None or unparse(stop) in (f"len({outs_p})", f"len({written[0]})"))
     ctx.ob("11.1-db-vectors", con, ok, "by default the index of a name is its position in the sorted name list that is written", node=(dflt or [aw])[0])
 
 
@@ -123,24 +261,50 @@ def check_append(ctx: Ctx) -> None:
     for m, what in (("__add_hdf_name_output", "keys"), ("__add_hdf_scalar_output", "values")):
         f = ctx.index.method(HD, "HDFDatabase", m)
         con = cname(HD, "HDFDatabase", m)
-        off = [s for s in stmts_of(f) if isinstance(s, ast.Assign) and dotted(s.targets[0]) == "offset" and isinstance(s.value, ast.Call)]
-        rz = [c for c in walk_body(f) if isinstance(c, ast.Call) and last_attr(c) == "resize"]
-        st = [s for s in stmts_of(f) if isinstance(s, ast.Assign) and isinstance(s.targets[0], ast.Subscript) and isinstance(s.targets[0].slice, ast.Slice)]
-        ctx.need(len(off) == 1 and len(rz) == 1 and len(st) == 1, f"{m}: offset / resize / slice store not found")
-        ds = norm_stmt(off[0].value.args[0]) if off[0].value.args else ""
-        ok = dotted(off[0].value.func) == "len" and norm_stmt(rz[0].func.value) == ds
-        ctx.ob("11.2-offset", con, ok, "the append offset must be the current length of the dataset being extended", node=off[0])
-        new = f.args.args[-1].arg
-        arg = rz[0].args[0]
-        el = arg.elts[0] if isinstance(arg, ast.Tuple) and len(arg.elts) == 1 else arg
-        ok = isinstance(el, ast.BinOp) and isinstance(el.op, ast.Add) and sorted([norm_stmt(el.left), norm_stmt(el.right)]) == sorted(["offset", f"len({new})"])
-        ctx.ob("11.2-resize", con, ok, f"the dataset must grow by exactly the number of appended {what}: resize((offset + len({new}),))", node=rz[0])
-        sl = st[0].targets[0].slice
-        ok = dotted(sl.lower) == "offset" and sl.upper is None and norm_stmt(st[0].targets[0].value) == ds and new in names_in(st[0].value)
-        ctx.ob("11.2-tail", con, ok, "the new items must be written at [offset:] of the same dataset", node=st[0])
         cfg = cfg_of(f)
-        ok = cfg.reachable(cfg.node_of(off[0]), cfg.node_of(rz[0])) and not cfg.reachable(cfg.node_of(rz[0]), cfg.node_of(off[0])) and cfg.reachable(cfg.node_of(rz[0]), cfg.node_of(st[0]))
-        ctx.ob("11.2-offset", con, ok, "the offset must be read before the dataset is resized", node=off[0], stmt="offset read before resize")
+        rz = [c for c in walk_body(f) if isinstance(c, ast.Call) and last_attr(c) == "resize" and isinstance(c.func, ast.Attribute)]
+        st = [s for s in stmts_of(f) if isinstance(s, ast.Assign) and isinstance(s.targets[0], ast.Subscript) and isinstance(s.targets[0].slice, ast.Slice)]
+        ctx.need(len(rz) == 1 and len(rz[0].args) == 1 and len(st) == 1, f"{m}: resize / slice store not found")
+        rz_stmt = rules.enclosing_stmt(f, rz[0])
+        ds = rz[0].func.value  # the dataset being extended
+        sl = st[0].targets[0].slice
+        new = f.args.args[-1].arg
+
+        def is_ds(e: ast.AST) -> bool:
+            return _same_object(f, e, ds)
+
+        def old_length(e: ast.AST | None) -> bool:
+            """``e`` (already unfolded) is the number of items of the dataset."""
+            x = _length_of(e) if e is not None else None
+            return x is not None and (norm_stmt(x) == norm_stmt(ds) or unparse(x) in _texts(f, ds))
+
+        def new_length(e: ast.AST | None) -> bool:
+            """``e`` (already unfolded) is the number of appended items."""
+            x = _length_of(e) if e is not None else None
+            while isinstance(x, ast.Call) and (last_attr(x) or "") in _LENGTH_PRESERVING and x.args:
+                x = x.args[0]
+            return dotted(x) == new
+
+        def total(e: ast.AST | None) -> bool:
+            return isinstance(e, ast.BinOp) and isinstance(e.op, ast.Add) and ((old_length(e.left) and new_length(e.right)) or (old_length(e.right) and new_length(e.left)))
+
+        lows = _exprs(f, sl.lower)
+        ok = bool(lows) and all(old_length(e) for e in lows)
+        ctx.ob("11.2-offset", con, ok, "the append offset must be the current length of the dataset being extended", node=sl.lower or st[0])
+        arg = rz[0].args[0]
+        sizes = [e.elts[0] if isinstance(e, ast.Tuple) and len(e.elts) == 1 else e for e in _exprs(f, arg)]
+        ok = bool(sizes) and all(total(e) for e in sizes)
+        ctx.ob("11.2-resize", con, ok, f"the dataset must grow by exactly the number of appended {what}: resize((offset + len({new}),))", node=rz[0])
+        ok = bool(lows) and all(old_length(e) for e in lows) and (sl.upper is None or all(total(e) for e in _exprs(f, sl.upper))) and sl.step is None
+        ok = ok and is_ds(st[0].targets[0].value) and any(new in names_in(v) for v in _exprs(f, st[0].value))
+        ctx.ob("11.2-tail", con, ok, "the new items must be written at [offset:] of the same dataset", node=st[0])
+        # the length that gives the offset is read before the resize: no statement that reads it for the slice runs after
+        reads = []
+        for bound in (sl.lower, sl.upper):
+            if bound is not None:
+                reads += [(s_, e_) for s_, e_ in _feeding_stmts(f, cfg, bound, st[0]) if any(_length_of(x) is not None and is_ds(_length_of(x)) for x in ast.walk(e_))]
+        ok = bool(reads) and all(s_ is not st[0] and cfg.reachable(cfg.node_of(s_), cfg.node_of(rz_stmt)) and (s_ is rz_stmt or not cfg.reachable(cfg.node_of(rz_stmt), cfg.node_of(s_))) for s_, _ in reads) and cfg.reachable(cfg.node_of(rz_stmt), cfg.node_of(st[0]))
+        ctx.ob("11.2-offset", con, ok, "the offset must be read before the dataset is resized", node=(reads or [(st[0], None)])[0][0], stmt="offset read before resize")
         conds = [(t, v) for t, v in branch_conditions(cfg, cfg.node_of(st[0])) if cfg.kind[t] == "test"]
         ok = len(conds) == 1
         if ok:
@@ -152,18 +316,36 @@ def check_append(ctx: Ctx) -> None:
         ctx.ob("11.2-create-or-append", con, ok, "a dataset is created when absent and extended otherwise", node=st[0], stmt="append iff the dataset exists")
     g = ctx.index.method(HD, "HDFDatabase", "__get_missing_hdf_output_dataset")
     con = cname(HD, "HDFDatabase", "__get_missing_hdf_output_dataset")
-    ids = [s for s in stmts_of(g) if isinstance(s, ast.Assign) and dotted(s.targets[0]) == "missing_ids"]
-    ok = len(ids) == 1 and norm_stmt(ids[0].value) in ("list(range(len(existing_output_names), len(output_values)))", "range(len(existing_output_names), len(output_values))")
-    ctx.ob("11.2-missing-ids", con, ok, "the indices of the missing outputs must follow the existing names: range(len(existing), len(all))", node=(ids or [g])[0])
-    mp = [s for s in stmts_of(g) if isinstance(s, ast.Assign) and isinstance(s.value, ast.Call) and dotted(s.value.func) == "dict" and "zip" in unparse(s.value)]
-    ok = len(mp) == 1 and "sorted(missing_name_values" in unparse(mp[0].value) and "missing_ids" in names_in(mp[0].value)
-    ctx.ob("11.2-missing-ids", con, ok, "missing names must be numbered in sorted order: the order in which __add_hdf_output_dataset appends them to the name list", node=(mp or [g])[0])
-    ex = [s for s in stmts_of(g) if isinstance(s, ast.Assign) and dotted(s.targets[0]) == "existing_output_names"]
-    ok = len(ex) == 1 and "keys_group[name]" in unparse(ex[0].value)
-    ctx.ob("11.2-missing-ids", con, ok, "existing names must be read from the entry's own name dataset", node=(ex or [g])[0])
-    miss = [s for s in stmts_of(g) if isinstance(s, ast.Assign) and dotted(s.targets[0]) == "missing_name_values"]
-    ok = len(miss) == 1 and isinstance(miss[0].value, ast.DictComp) and len(miss[0].value.generators[0].ifs) == 1 and "not in existing_output_names" in unparse(miss[0].value.generators[0].ifs[0])
-    ctx.ob("11.2-missing-ids", con, ok, "missing outputs are exactly those whose name is not yet in the file", node=(miss or [g])[0])
+    gp = [a_.arg for a_ in g.args.args]
+    ctx.need(len(gp) == 3, "__get_missing_hdf_output_dataset: (index, keys group, outputs) expected")
+    rets = [s for s in stmts_of(g) if isinstance(s, ast.Return) and isinstance(s.value, ast.Tuple) and len(s.value.elts) == 2 and not all(isinstance(e, ast.Dict) and not e.keys for e in s.value.elts)]
+    ctx.need(len(rets) == 1, "__get_missing_hdf_output_dataset: the return of (missing outputs, their indices) not found")
+    miss_alts = _exprs(g, rets[0].value.elts[0])
+    map_alts = _exprs(g, rets[0].value.elts[1])
+    miss = miss_alts[0] if len(miss_alts) == 1 else None
+    # missing outputs: {name: value for name, value in outputs.items() if name not in existing}
+    existing = None
+    ok = isinstance(miss, ast.DictComp) and len(miss.generators) == 1 and len(miss.generators[0].ifs) == 1
+    if ok:
+        gen = miss.generators[0]
+        cp = compare_parts(gen.ifs[0])
+        ok = norm_stmt(gen.iter) == f"{gp[2]}.items()" and isinstance(gen.target, ast.Tuple) and len(gen.target.elts) == 2 and dotted(miss.key) == dotted(gen.target.elts[0]) and dotted(miss.value) == dotted(gen.target.elts[1])
+        ok = ok and cp is not None and cp[1] is ast.NotIn and dotted(cp[0]) == dotted(miss.key)
+        if ok:
+            existing = cp[2]
+    ctx.ob("11.2-missing-ids", con, bool(ok), "missing outputs are exactly those whose name is not yet in the file", node=rets[0], stmt="missing = outputs whose name is not in the existing names")
+    ok = existing is not None and any(isinstance(n_, ast.Subscript) and dotted(n_.value) == gp[1] and norm_stmt(n_.slice) == f"str({gp[0]})" for n_ in ast.walk(existing))
+    ctx.ob("11.2-missing-ids", con, ok, "existing names must be read from the entry's own name dataset", node=rets[0], stmt="existing names = keys_group[str(index)]")
+    mp = _index_mapping(map_alts[0]) if len(map_alts) == 1 else None
+    ok = mp is not None and existing is not None
+    if ok:
+        seq, start, stop = mp
+        n_exist = f"len({unparse(existing)})"
+        n_miss = f"len({unparse(miss)})"
+        ok = start is not None and unparse(start) == n_exist and (stop is None or unparse(stop) in (f"len({gp[2]})", f"{n_exist} + {n_miss}", f"{n_miss} + {n_exist}"))
+    ctx.ob("11.2-missing-ids", con, bool(ok), "the indices of the missing outputs must follow the existing names: range(len(existing), len(all))", node=rets[0], stmt="indices of the missing names start at len(existing)")
+    ok = mp is not None and miss is not None and _plain_sorted(mp[0]) is not None and unparse(_plain_sorted(mp[0])) == unparse(miss)
+    ctx.ob("11.2-missing-ids", con, bool(ok), "missing names must be numbered in sorted order: the order in which __add_hdf_output_dataset appends them to the name list", node=rets[0], stmt="missing names numbered in sorted order")
     a = ctx.index.method(HD, "HDFDatabase", "__append_hdf_output")
     call = rules.self_calls(a, "__add_hdf_output_dataset", "HDFDatabase")
     unp = [s for s in stmts_of(a) if isinstance(s, ast.Assign) and isinstance(s.targets[0], ast.Tuple)]
@@ -176,8 +358,15 @@ def check_pending(ctx: Ctx) -> None:
     f = ctx.index.method(HD, "HDFDatabase", "to_file")
     con = cname(HD, "HDFDatabase", "to_file")
     cfg = cfg_of(f)
+    db = f.args.args[1].arg  # the database being exported
     withs = [s for s in stmts_of(f) if isinstance(s, ast.With)]
-    clr = [c for c in walk_body(f) if isinstance(c, ast.Call) and last_attr(c) == "clear" and "__pending_arrays" in (dotted(c.func.value) or "")]
+
+    def is_pending(e: ast.AST) -> bool:
+        return "__pending_arrays" in (dotted(e) or "")
+
+    # the pending points are forgotten by ``.clear()`` or by re-binding the attribute
+    clr = [s for s in stmts_of(f) if (isinstance(s, ast.Expr) and isinstance(s.value, ast.Call) and isinstance(s.value.func, ast.Attribute) and s.value.func.attr == "clear" and is_pending(s.value.func.value)) or (isinstance(s, (ast.Assign, ast.AnnAssign, ast.Delete)) and any(is_pending(t) for t in (s.targets if not isinstance(s, ast.AnnAssign) else [s.target])))]
+    clr += [rules.enclosing_stmt(f, c) for c in walk_body(f) if isinstance(c, ast.Call) and last_attr(c) == "clear" and isinstance(c.func, ast.Attribute) and is_pending(c.func.value) and not any(rules.enclosing_stmt(f, c) is s for s in clr)]
     ok = len(withs) == 1 and len(clr) == 1 and not any(sub is clr[0] for sub in ast.walk(withs[0])) and cfg.reachable(cfg.node_of(withs[0]), cfg.node_of(clr[0]))
     ctx.ob("11.3-clear-after-close", con, ok, "pending points may be forgotten only after the file has been written and closed (an exception during the export must leave them pending)", node=(clr or [f])[0])
     loops = [s for s in stmts_of(f) if isinstance(s, ast.For) and "__pending_arrays" in unparse(s.iter)]
@@ -185,25 +374,71 @@ def check_pending(ctx: Ctx) -> None:
     ctx.ob("11.3-append-pending", con, ok, "append mode must export exactly the pending points", node=(loops or [f])[0])
     if ok:
         lp = loops[0]
+        point = dotted(lp.target)
         app = [c for c in ast.walk(lp) if isinstance(c, ast.Call) and last_attr(c).endswith("__append_hdf_output")]
         cre = [c for c in ast.walk(lp) if isinstance(c, ast.Call) and last_attr(c).endswith("__create_hdf_input_output")]
-        ok = len(app) == 1 and len(cre) == 1
+        ok = len(app) == 1 and len(cre) == 1 and len(app[0].args) == 4 and len(cre[0].args) == 6
         if ok:
-            ca = [(norm_stmt(cfg.ast[t].test), v) for t, v in branch_conditions(cfg, cfg.node_of(app[0])) if cfg.kind[t] == "test" and any(sub is cfg.ast[t] for sub in ast.walk(lp))]
-            cc = [(norm_stmt(cfg.ast[t].test), v) for t, v in branch_conditions(cfg, cfg.node_of(cre[0])) if cfg.kind[t] == "test" and any(sub is cfg.ast[t] for sub in ast.walk(lp))]
-            ok = ca == [("str(index_dataset) in design_vars_grp", True)] and cc == [("str(index_dataset) in design_vars_grp", False)]
+            ca = [(cfg.ast[t].test, v) for t, v in branch_conditions(cfg, cfg.node_of(app[0])) if cfg.kind[t] == "test" and any(sub is cfg.ast[t] for sub in ast.walk(lp))]
+            cc = [(cfg.ast[t].test, v) for t, v in branch_conditions(cfg, cfg.node_of(cre[0])) if cfg.kind[t] == "test" and any(sub is cfg.ast[t] for sub in ast.walk(lp))]
+
+            def present(test: ast.AST, call: ast.Call) -> bool | None:
+                """Polarity of ``str(<index of the call>) in <group of the design variables>`` (None: another test)."""
+                cp = compare_parts(test)
+                if cp is None or cp[1] not in (ast.In, ast.NotIn):
+                    return None
+                left, right = set(_texts(f, cp[0])), set(_texts(f, cp[2]))
+                if left & {f"str({i})" for i in _texts(f, call.args[0])} and right & set(_texts(f, cre[0].args[1])):
+                    return cp[1] is ast.In
+                return None
+
+            ok = len(ca) == 1 and len(cc) == 1 and present(ca[0][0], app[0]) is not None and present(cc[0][0], cre[0]) is not None
+            ok = ok and present(ca[0][0], app[0]) == ca[0][1] and present(cc[0][0], cre[0]) != cc[0][1]
         ctx.ob("11.3-append-pending", con, ok, "a pending point already in the file gets its missing outputs appended; a new one gets a new entry", node=(app or [lp])[0], stmt="create-or-append by presence of the index")
-        idx = [s for s in ast.walk(lp) if isinstance(s, ast.Assign) and dotted(s.targets[0]) == "index_dataset"]
-        ok = len(idx) == 1 and norm_stmt(idx[0].value) == f"input_values_to_idx[{dotted(lp.target)}]"
-        mp = [s for s in stmts_of(f) if isinstance(s, ast.Assign) and dotted(s.targets[0]) == "input_values_to_idx"]
-        ok = ok and len(mp) == 1 and any(t_ in unparse(mp[0].value) for t_ in ("enumerate(database.keys())", "enumerate(database)"))
-        ctx.ob("11.3-append-pending", con, ok, "the entry index of a point is its position in the database", node=(idx or [lp])[0], stmt="index = position in the database")
-        outv = [s for s in ast.walk(lp) if isinstance(s, ast.Assign) and dotted(s.targets[0]) == "output_values"]
-        ok = len(outv) == 1 and norm_stmt(outv[0].value) == f"database[{dotted(lp.target)}]"
-        ctx.ob("11.3-append-pending", con, ok, "the outputs exported for a pending point are its current outputs in the database", node=(outv or [lp])[0], stmt="outputs of the same point")
-    full = [s for s in stmts_of(f) if isinstance(s, ast.For) and norm_stmt(s.iter) == "database.items()"]
-    ok = len(full) == 1 and any(isinstance(x, ast.AugAssign) and dotted(x.target) == "index_dataset" and const_value(x.value) == 1 for x in ast.walk(full[0]))
-    ctx.ob("11.3-full-export", con, ok, "a full export writes every item of the database with consecutive indices", node=(full or [f])[0])
+        calls = app + cre
+
+        def position_in_db(e: ast.AST) -> bool:
+            """``e`` (unfolded) is <positions of the points of the database>[<the pending point>]."""
+            if not (isinstance(e, ast.Subscript) and dotted(e.slice) == point):
+                return False
+            mp = _index_mapping(e.value)
+            if mp is None:
+                return False
+            seq = mp[0]
+            if isinstance(seq, ast.Call) and dotted(seq.func) in ("list", "tuple") and len(seq.args) == 1 and not seq.keywords:
+                seq = seq.args[0]
+            return unparse(seq) in (db, f"{db}.keys()") and _is_zero(mp[1]) and (mp[2] is None or unparse(mp[2]) == f"len({db})")
+
+        ok = bool(calls) and point is not None and all(c.args and _exprs(f, c.args[0]) and all(position_in_db(e) for e in _exprs(f, c.args[0])) for c in calls)
+        ctx.ob("11.3-append-pending", con, ok, "the entry index of a point is its position in the database", node=(calls or [lp])[0], stmt="index = position in the database")
+        ok = bool(calls) and point is not None and all(c.args and _texts(f, c.args[-1]) == [f"{db}[{point}]"] for c in calls)
+        ctx.ob("11.3-append-pending", con, ok, "the outputs exported for a pending point are its current outputs in the database", node=(calls or [lp])[0], stmt="outputs of the same point")
+
+    def all_items(e: ast.AST) -> tuple[bool, bool]:
+        """(iterates the items of the database, through enumerate from 0)."""
+        if isinstance(e, ast.Call) and dotted(e.func) == "enumerate" and e.args and _is_zero(arg_or_kw(e, 1, "start")):
+            return norm_stmt(e.args[0]) == f"{db}.items()", True
+        return norm_stmt(e) == f"{db}.items()", False
+
+    full = [s for s in stmts_of(f) if isinstance(s, ast.For) and all_items(s.iter)[0]]
+    ok = len(full) == 1
+    if ok:
+        fl = full[0]
+        cre = [c for c in ast.walk(fl) if isinstance(c, ast.Call) and last_attr(c).endswith("__create_hdf_input_output")]
+        ok = len(cre) == 1 and bool(cre[0].args) and isinstance(cre[0].args[0], ast.Name)
+        if ok:
+            counter = cre[0].args[0].id
+            if all_items(fl.iter)[1]:
+                # for index, (point, outputs) in enumerate(database.items())
+                ok = isinstance(fl.target, ast.Tuple) and len(fl.target.elts) == 2 and dotted(fl.target.elts[0]) == counter and not any(isinstance(x, (ast.Assign, ast.AugAssign)) and counter in {dotted(t) for t in (x.targets if isinstance(x, ast.Assign) else [x.target])} for x in ast.walk(fl))
+            else:
+                ups = [x for x in ast.walk(fl) if isinstance(x, (ast.Assign, ast.AugAssign)) and counter in {dotted(t) for t in (x.targets if isinstance(x, ast.Assign) else [x.target])}]
+                inc = [as_update(x) for x in ups]
+                ok = len(ups) == 1 and inc[0] is not None and isinstance(inc[0][1], ast.Add) and const_value(inc[0][2]) == 1 and ups[0] in fl.body
+                ok = ok and cfg.reachable(cfg.node_of(rules.enclosing_stmt(f, cre[0])), cfg.node_of(ups[0]))
+                init = [s for s in stmts_of(f) if isinstance(s, ast.Assign) and counter in {dotted(t) for t in s.targets} and not any(sub is s for sub in ast.walk(fl)) and cfg.reachable(cfg.node_of(s), cfg.node_of(fl))]
+                ok = ok and bool(init) and all(_is_zero(s.value) and s.value is not None for s in init)
+    ctx.ob("11.3-full-export", con, bool(ok), "a full export writes every item of the database with consecutive indices", node=(full or [f])[0])
     # pending buffer keyed by hash, compared by content
     p = ctx.index.method(HD, "HDFDatabase", "add_pending_array")
     st = [s for s in stmts_of(p) if isinstance(s, ast.Assign) and isinstance(s.targets[0], ast.Subscript)]
@@ -231,17 +466,17 @@ def check_design_space_tables(ctx: Ctx) -> None:
     # what is written under each name
     wr = {}
     for c in walk_body(w):
-        if isinstance(c, ast.Call) and last_attr(c) == "create_dataset" and isinstance(c.args[0], ast.Attribute):
-            d = next((k.value for k in c.keywords if k.arg == "data"), None)
+        if isinstance(c, ast.Call) and last_attr(c) == "create_dataset" and isinstance(arg_or_kw(c, 0, "name"), ast.Attribute):
+            d = kwarg(c, "data")
             if isinstance(d, ast.Name):
                 defs = [s for s in stmts_of(w) if isinstance(s, ast.Assign) and dotted(s.targets[0]) == d.id]
                 d = defs[0].value if len(defs) == 1 else d
-            wr[c.args[0].attr] = unparse(d) if d is not None else ""
+            wr[arg_or_kw(c, 0, "name").attr] = unparse(d) if d is not None else ""
     want = {"SIZE_GROUP": "variable.size", "LB_GROUP": "variable.lower_bound", "UB_GROUP": "variable.upper_bound"}
     for k, v in want.items():
         ctx.ob("11.1-ds-fields", cname(DS, "DesignSpace", "to_hdf"), wr.get(k) == v, f"{k} must hold {v}, found {wr.get(k)}", node=w, stmt=f"{k} <- {v}")
     # the current value is written variable by variable: the test that guards it is about THIS variable
-    vcalls = [c for c in walk_body(w) if isinstance(c, ast.Call) and last_attr(c) == "create_dataset" and c.args and norm_stmt(c.args[0]).endswith("VALUE_GROUP")]
+    vcalls = [c for c in walk_body(w) if isinstance(c, ast.Call) and last_attr(c) == "create_dataset" and norm_stmt(arg_or_kw(c, 0, "name")).endswith("VALUE_GROUP")]
     okv = len(vcalls) == 1
     if okv:
         from gv.cfg import cfg_of as _cfg_of
@@ -273,9 +508,37 @@ def check_design_space_tables(ctx: Ctx) -> None:
             g = [n.attr for n in ast.walk(s.value) if isinstance(n, ast.Attribute) and n.attr.endswith("_GROUP")]
             if g:
                 src[s.targets[0].id] = g[0]
-    got = [src.get(dotted(a)) for a in add[0].args[1:]]
+    sig = [a.arg for a in ctx.index.method(DS, "DesignSpace", "add_variable").args.args][1:]
+    ctx.need(len(sig) >= 6, "DesignSpace.add_variable(name, size, type, lower, upper, value) expected")
+    bound = [arg_or_kw(add[0], i, p_) for i, p_ in enumerate(sig[:6])]
+
+    def group_of(e: ast.AST | None) -> str | None:
+        """The *_GROUP dataset an argument is read from (a local assigned from it, or the read written in place)."""
+        if e is None:
+            return None
+        if isinstance(e, ast.Name):
+            return src.get(e.id)
+        g_ = [n.attr for n in ast.walk(e) if isinstance(n, ast.Attribute) and n.attr.endswith("_GROUP")]
+        return g_[0] if g_ else None
+
+    got = [group_of(a) for a in bound[1:]]
     ctx.ob("11.1-ds-fields", cname(DS, "DesignSpace", "from_hdf"), got == ["SIZE_GROUP", "VAR_TYPE_GROUP", "LB_GROUP", "UB_GROUP", "VALUE_GROUP"], f"add_variable(name, size, type, lower, upper, value) is fed from {got}", node=add[0])
-    names = [s for s in stmts_of(r) if isinstance(s, ast.For) and src.get(dotted(s.iter)) == "NAMES_GROUP"]
+    def order_source(e: ast.AST, depth: int = 0) -> ast.AST:
+        """The iterable whose order ``e`` keeps: through element-wise comprehensions, list()/tuple()/map() and locals."""
+        if depth > 6:
+            return e
+        if isinstance(e, ast.Name) and e.id not in src:
+            defs = [s_.value for s_ in stmts_of(r) if isinstance(s_, ast.Assign) and any(dotted(t) == e.id for t in s_.targets)]
+            return order_source(defs[0], depth + 1) if len(defs) == 1 else e
+        if isinstance(e, (ast.ListComp, ast.GeneratorExp)) and len(e.generators) == 1 and not e.generators[0].ifs:
+            return order_source(e.generators[0].iter, depth + 1)
+        if isinstance(e, ast.Call) and dotted(e.func) in ("list", "tuple") and len(e.args) == 1 and not e.keywords:
+            return order_source(e.args[0], depth + 1)
+        if isinstance(e, ast.Call) and dotted(e.func) == "map" and len(e.args) == 2 and not e.keywords:
+            return order_source(e.args[1], depth + 1)
+        return e
+
+    names = [s for s in stmts_of(r) if isinstance(s, ast.For) and src.get(dotted(order_source(s.iter))) == "NAMES_GROUP"]
     ctx.ob("11.1-ds-order", cname(DS, "DesignSpace", "from_hdf"), len(names) == 1, "variables must be re-created in the order of the stored name list (the variable order defines the design vector)", node=(names or [r])[0])
 
 
@@ -287,13 +550,36 @@ def check_cache_tables(ctx: Ctx) -> None:
     rh = ctx.index.method(HS, "HDF5FileSingleton", "read_hashes")
 
     def sp_attrs(func):
-        return {n.attr for n in walk_body(func) if isinstance(n, ast.Attribute) and isinstance(n.value, ast.Attribute) and n.value.attr.endswith("SparseMatricesAttribute")}
+        out = set()
+        for n in walk_body(func):
+            if isinstance(n, ast.Attribute) and isinstance(n.value, ast.Attribute) and n.value.attr.endswith("SparseMatricesAttribute"):
+                out.add(n.attr)
+            elif isinstance(n, ast.Attribute) and isinstance(n.value, ast.Name) and isinstance(n.ctx, ast.Load) and any(t.endswith("SparseMatricesAttribute") for t in _texts(func, n.value)):
+                out.add(n.attr)  # attributes = self.__SparseMatricesAttribute; attributes.INDICES
+        return out
 
     written = sp_attrs(sw)
     read = sp_attrs(sr) | sp_attrs(rd)
     ctx.ob("11.1-cache-sparse", cname(HS, "HDF5FileSingleton", "__read_sparse_array"), written == read and len(written) == 4, f"sparse attributes written {sorted(written)} vs read {sorted(read)}", node=sr, stmt="sparse attribute names agree")
     ctor = [c for c in walk_body(sr) if isinstance(c, ast.Call) and last_attr(c) in ("csr_array", "csr_matrix")]
-    ok = len(ctor) == 1 and len(ctor[0].args) >= 2 and isinstance(ctor[0].args[0], ast.Tuple) and [dotted(e) for e in ctor[0].args[0].elts[1:]] == ["indices", "indptr"] and dotted(ctor[0].args[1]) == "shape"
+    def attr_read(e: ast.AST | None) -> str | None:
+        """``X`` when ``e`` (through locals) is ``<dataset>.attrs.get(<enum>.X)`` / ``<dataset>.attrs[<enum>.X]``."""
+        alts = set()
+        for v in _exprs(sr, e):
+            key = None
+            if isinstance(v, ast.Call) and isinstance(v.func, ast.Attribute) and v.func.attr == "get" and len(v.args) == 1 and not v.keywords:
+                holder, key = v.func.value, v.args[0]
+            elif isinstance(v, ast.Subscript):
+                holder, key = v.value, v.slice
+            if key is None or not (isinstance(holder, ast.Attribute) and holder.attr == "attrs" and dotted(holder.value) == sr.args.args[-1].arg):
+                return None
+            alts.add(key.attr if isinstance(key, ast.Attribute) and (dotted(key.value) or "").endswith("SparseMatricesAttribute") else None)
+        return alts.pop() if len(alts) == 1 else None
+
+    ok = len(ctor) == 1 and len(ctor[0].args) >= 1 and isinstance(ctor[0].args[0], ast.Tuple) and len(ctor[0].args[0].elts) == 3
+    if ok:
+        trip = ctor[0].args[0].elts
+        ok = dotted(trip[0]) == sr.args.args[-1].arg and [attr_read(e) for e in trip[1:]] == ["INDICES", "INDPTR"] and attr_read(arg_or_kw(ctor[0], 1, "shape")) == "SHAPE"
     ctx.ob("11.1-cache-sparse", cname(HS, "HDF5FileSingleton", "__read_sparse_array"), ok, "a CSR array must be rebuilt as (data, indices, indptr), shape", node=(ctor or [sr])[0])
     csr = [c for c in walk_body(sw) if isinstance(c, ast.Call) and last_attr(c) == "tocsr"]
     ctx.ob("11.1-cache-sparse", cname(HS, "HDF5FileSingleton", "__write_sparse_array"), len(csr) == 1, "sparse values must be converted to CSR before their data/indices/indptr are written", node=(csr or [sw])[0])
@@ -307,8 +593,12 @@ def check_cache_tables(ctx: Ctx) -> None:
     ok = names_w == ["hdf_node_path", "str(index)", "group"] and set(re_) == {"hdf_node_path", "str(index)", "group"}
     ctx.ob("11.1-cache-layout", cname(HS, "HDF5FileSingleton", "read_data"), ok, f"entries are written at <node>/<index>/<group> ({names_w}) and must be read from the same path ({sorted(set(re_))})", node=rd, stmt="node/index/group layout")
     # strings: bytes on disk, str in memory
-    enc = [c for c in walk_body(w) if isinstance(c, ast.Call) and last_attr(c) == "astype" and c.args and const_value(c.args[0]) == "bytes"]
-    dec = [c for c in walk_body(rd) if isinstance(c, ast.Call) and last_attr(c) == "astype" and c.args and dotted(c.args[0]) == "str_"]
+    def dtype_is(e: ast.AST | None, kind: str) -> bool:
+        """``e`` names the NumPy bytes / str dtype: the string "bytes", the scalar type ``bytes_`` or the builtin."""
+        return e is not None and (const_value(e) == kind or (dotted(e) or "").split(".")[-1] in (kind, kind + "_"))
+
+    enc = [c for c in walk_body(w) if isinstance(c, ast.Call) and last_attr(c) == "astype" and dtype_is(arg_or_kw(c, 0, "dtype"), "bytes")]
+    dec = [c for c in walk_body(rd) if isinstance(c, ast.Call) and last_attr(c) == "astype" and dtype_is(arg_or_kw(c, 0, "dtype"), "str")]
     ctx.ob("11.1-cache-strings", cname(HS, "HDF5FileSingleton", "read_data"), len(enc) == 1 and len(dec) == 1, "string arrays are written as bytes and must be converted back to str when read", node=(dec or [rd])[0])
 
 
@@ -331,9 +621,27 @@ def check_problem_tables(ctx: Ctx) -> None:
     ctx.need(listed, "OptimizationProblem._OPTIM_DESCRIPTION not found")
     # reader: attr_name == "X" -> where the value goes
     restored = {}
+    # the locals that hold the value read for the current entry: for attr_name, attr in group.items(): val = attr[()]
+    read_vals: set[str] = set()
+    for lp_ in [s for s in stmts_of(r) if isinstance(s, ast.For) and isinstance(s.target, ast.Tuple) and len(s.target.elts) == 2 and dotted(s.target.elts[0]) == "attr_name"]:
+        raw = names_in(lp_.target.elts[1])  # the HDF dataset of the entry: its content is read with [()]
+        for _ in range(3):
+            for s_ in ast.walk(lp_):
+                if isinstance(s_, ast.Assign) and isinstance(s_.targets[0], ast.Name) and s_.targets[0].id != "attr_name" and names_in(s_.value) & (raw | read_vals):
+                    read_vals.add(s_.targets[0].id)
+        read_vals -= raw
+
+    def is_read_value(e: ast.AST) -> bool:
+        """The value read for the entry, as it is or through a scalar conversion."""
+        if isinstance(e, ast.Call) and dotted(e.func) in ("float", "int", "bool", "str") and len(e.args) == 1 and not e.keywords:
+            e = e.args[0]
+        elif isinstance(e, ast.Call) and isinstance(e.func, ast.Attribute) and e.func.attr == "item" and not e.args and not e.keywords:
+            e = e.func.value
+        return isinstance(e, ast.Name) and e.id in read_vals
+
     for s in stmts_of(r):
         tgt = None
-        if isinstance(s, ast.Assign) and isinstance(s.targets[0], ast.Attribute) and (dotted(s.targets[0]) or "").startswith("problem.") and dotted(s.value) == "val":
+        if isinstance(s, ast.Assign) and isinstance(s.targets[0], ast.Attribute) and (dotted(s.targets[0]) or "").startswith("problem.") and is_read_value(s.value):
             tgt = dotted(s.targets[0]).replace("problem.", "", 1)
         elif isinstance(s, ast.Assign) and dotted(s.targets[0]) == "attr_name" and isinstance(s.value, ast.Constant):
             tgt = s.value.value
